@@ -26,6 +26,8 @@ def make_packages(seed, npk, per_file, files_per_pkg=1, malformed_frac=0.0, opts
     # directed reproducers of the open concurrency findings: one package each (keeps `ctx` named ctx)
     for i, kd in enumerate(declgen.known_finding_decls()):
         pkgs.append(dict(name="kf%d" % i, files=[dict(fname="a.go", decls=[kd])], kind="valid"))
+    cm = declgen.ctx_mid_decls(8000)
+    pkgs.append(dict(name="cm0", files=[dict(fname="a.go", decls=cm)], kind="valid"))
     # systematic stream (C05): all async masks x all discovery orders of 2..3 parameterless providers
     sysd = list(declgen.systematic_leaves(9000))
     for i in range(0, len(sysd), 14):
@@ -39,10 +41,10 @@ def make_malformed_packages(seed, count):
     pkgs = []
     k = 0
     tries = 0
-    kinds = ["cycle", "dup", "orphan", "dupfield", "cycle_mv", "dup_mv"]
+    kinds = ["cycle", "dup", "orphan", "dupfield", "cycle_mv", "dup_mv", "orphan_self"]
     while len(pkgs) < count and tries < count * 20:
         tries += 1
-        kind = kinds[len(pkgs) % 6]
+        kind = kinds[len(pkgs) % 7]
         base = declgen.gen_decl(rnd, 5000 + k, dict(n=rnd.choice([2, 3, 4, 5, 6, 8]), bindmv=kind.endswith("_mv")))
         d = declgen.mutate_malformed(rnd, base, kind)
         if d is None:
